@@ -643,3 +643,54 @@ func RenameSymbols(r *rng.R, g *gram.Grammar) {
 		g.Tokens[i].Name = renameTokPool[pt[i]]
 	}
 }
+
+// ErrorContextsGrammar: a rule with an @error alternative used in two or
+// three contexts that are followed by different tokens (bare, A x B, C x D, as
+// elements of a list). LALR(1) merges the states after the error production,
+// so it is reduced on lookaheads the actual context rejects: recovery inside
+// recovery, also at the end of the input.
+func ErrorContextsGrammar(r *rng.R) *gram.Grammar {
+	g := &gram.Grammar{}
+	n := 8
+	for i := 0; i < n; i++ {
+		g.Tokens = append(g.Tokens, gram.Token{Name: tokNames[i], Lit: string(rune('a' + i))})
+	}
+	perm := r.Perm(n)
+	tk := func(i int) gram.Term { return gram.Term{Ref: gram.Ref{Kind: gram.KTok, Idx: perm[i]}} }
+	rl := func(i int) gram.Term { return gram.Term{Ref: gram.Ref{Kind: gram.KRule, Idx: i}} }
+	e := gram.Term{Ref: gram.Ref{Kind: gram.KErr}}
+	// rule 1: item
+	item := gram.Rule{Name: "item", Prods: []gram.Prod{P(tk(0))}}
+	switch r.Intn(4) {
+	case 0:
+		item.Prods = append(item.Prods, P(e))
+	case 1:
+		item.Prods = append(item.Prods, P(e, tk(1)))
+	case 2:
+		item.Prods = append(item.Prods, P(e), P(tk(1), e))
+	default:
+		item.Prods = append(item.Prods, P(tk(1), tk(0)), P(e))
+	}
+	inner := -1
+	s := gram.Rule{Name: "s"}
+	ctx := [][]gram.Term{{rl(1)}, {tk(2), rl(1), tk(3)}, {tk(4), rl(1), tk(5)}, {tk(2), tk(2), rl(1), tk(5)}, {tk(6), rl(1)}}
+	cp := r.Perm(len(ctx))
+	k := r.Range(2, 3)
+	for i := 0; i < k; i++ {
+		s.Prods = append(s.Prods, P(ctx[cp[i]]...))
+	}
+	g.Rules = []gram.Rule{s, item}
+	if r.Chance(1, 3) {
+		// one more level: item = wrap; wrap carries the error alternative
+		inner = len(g.Rules)
+		g.Rules = append(g.Rules, gram.Rule{Name: "wrap", Prods: g.Rules[1].Prods})
+		g.Rules[1].Prods = []gram.Prod{P(rl(inner)), P(tk(7), rl(inner))}
+	}
+	if r.Chance(1, 3) {
+		// the contexts repeat: prog = s (SEP s)*
+		top := len(g.Rules)
+		g.Rules = append(g.Rules, gram.Rule{Name: "prog", Prods: []gram.Prod{P(gram.Term{Ref: gram.Ref{Kind: gram.KRule, Idx: 0}, Sugar: gram.List, Sep: gram.Ref{Kind: gram.KTok, Idx: perm[7]}})}})
+		g.Start = top
+	}
+	return g
+}
